@@ -31,6 +31,16 @@ CHECKS = {
          "Every single mutation operator (52 operators over parent, miner, roots, height, gas, time, extra, transactions, change logs, deputy list) x 6 signing modes (kept, re-signed by the miner / another deputy / an outsider, junk, empty) x {roots recomputed or not} on 7 (chain state, valid candidate block) pairs (fresh, 3-block chain, two forks, after a stable advance; on head and on inner / short-fork parents), thorough: all pairs of operators from different groups. accepted => validRef (parent known, height, time window, extra, signed by the reference-rotation deputy with its miner address, tx windows and replays, equality with an honest re-execution by the factory); rejected => (head, stable, stored blocks + confirm counts, watched accounts at head, pool, tx-guard answers) unchanged; a panic is a violation.",
          "3 genesis deputies, 10 s slots, observer node, wall clock far later than honest block times (the now+1 s tolerance edge is not enumerated); gasLimit and extra are the miner's free choices; snapshot-height candidate blocks not yet enumerated.",
          "DESIGN.md section 4 C02"),
+ "C01": ("exploration",
+         "bounded exhaustive enumeration of ordered transaction lists on real miner and validator paths; cross-node differential oracle (miner vs restarted validator vs fresh validator with other prior history vs redo of the change logs)",
+         "Every ordered list without repeats of length <= 2 (quick) / <= 3 (thorough) over a 25-transaction menu covering all 11 tx types (valid, failing, reverting, self-destructing, value-forwarding, box-wrapped, gas-payer, multi-signature, contract-creating / calling) is mined by the real BlockAssembler.MineBlock on a prefix state; with each of 4 discard-only candidates inserted at every position the mined block must be bit-identical; a validator whose data directory was copied and reopened (process restart) and a fresh validator that has just executed and rejected a corrupted sibling must accept the block and hold the same account data, field for field, for all touched + watched addresses; redoing the published logs must give the attributes redo defines.",
+         "Single deputy, one prefix state; Go map iteration order is not enumerated (runs use whatever order the runtime picks); the store's background writer is quiesced between blocks (its races are C08/C19's subject).",
+         "DESIGN.md section 4 C01"),
+ "C05": ("exploration",
+         "bounded exhaustive enumeration of ordered transaction lists on the real miner path with a conservation monitor as invariant",
+         "Every ordered list without repeats of length <= 2 (quick) / <= 3 (thorough) over the 25-transaction menu is mined on the prefix state; on every block: sum of all balance changes == -(burns); the income address receives exactly what the gas payers are charged; per-tx gasUsed <= gasLimit and header.GasUsed is the sum; no negative balance; for single-transaction blocks a failed tx moves nothing but its fee and the payer pays exactly gasUsed x gasPrice (+ at most the amount).",
+         "Ordinary heights only: term rewards, deposit refunds at term boundaries and reward settings are not enumerated yet; the only burner in the menu is the contract that self-destructs to itself.",
+         "DESIGN.md section 4 C05"),
 }
 
 NOT_YET = "check not built yet in this round (design in DESIGN.md section 4); no technique switch intended"
